@@ -713,7 +713,7 @@ impl Subscription {
                 IterDirection::Forward,
             )
             .await?;
-        while let Some(commits) = iter.next_batch(DEFAULT_BATCH_SIZE).await? {
+        'iter: while let Some(commits) = iter.next_batch(DEFAULT_BATCH_SIZE).await? {
             #[cfg(sierradb_verif)]
             verif_hooks::point(
                 "sub.history.batch",
@@ -727,7 +727,7 @@ impl Subscription {
                 };
 
                 if !watermark.can_read(first_partition_sequence) {
-                    break;
+                    break 'iter;
                 }
 
                 for event in commit {
